@@ -133,36 +133,65 @@ void verify(vf::Ctx &c, const char *signal, const Seen &seen, size_t expected_it
 
 const char *kDisabledValues[] = {nullptr, "", "true", "TRUE", "tRuE", "false", "1", "truex", " true"};
 
+// construction paths
+//  0 constructor(processor / views, resource)      1 factory(processor / views, resource)      2 factory(context(processors, resource))
+//  3 constructor with the DEFAULTED resource       4 factory overload WITHOUT a resource (both: Resource::Create({}))
+//  5 two processors (trace / logs: factory(vector of 2, resource); metrics: two readers)
+//  6 one processor at construction, a second one added with AddProcessor / AddMetricReader AFTER the provider handed out a
+//    tracer / logger / meter and telemetry was emitted
+enum { P_CTOR, P_FACTORY, P_CONTEXT, P_CTOR_DEFAULT, P_FACTORY_DEFAULT, P_TWO, P_ADD_LATER, P_N };
+const char *const kPathName[P_N] = {"constructor", "factory", "context", "constructor-default-resource", "factory-default-resource", "two-processors", "processor-added-later"};
+
 void run(vf::Ctx &c) {
   int signal = c.pick("signal", 3);
-  int path = c.pick("path", 3);
-  int which = c.pick("resource", 4);
+  int path = c.pick("path", P_N);
+  const bool default_resource = path == P_CTOR_DEFAULT || path == P_FACTORY_DEFAULT;
+  int which = default_resource ? 2 : c.pick("resource", 4);  // 2 is Resource::Create({}): what the defaulted parameter / the short factory overload builds
   int scopes = 1 + c.pick("scopes", c.thorough() ? 3 : 2);
   int items = 1 + c.pick("items", c.thorough() ? 3 : 2);
-  const char *dis = kDisabledValues[c.pick("OTEL_SDK_DISABLED", (int)(sizeof kDisabledValues / sizeof *kDisabledValues))];
+  // OTEL_SDK_DISABLED concerns the sdk Provider setters, not the construction path: the new paths run with the variable unset
+  const char *dis = kDisabledValues[path <= P_CONTEXT ? c.pick("OTEL_SDK_DISABLED", (int)(sizeof kDisabledValues / sizeof *kDisabledValues)) : 0];
   bool disabled = dis && strcasecmp(dis, "true") == 0;
   if (dis) setenv("OTEL_SDK_DISABLED", dis, 1); else unsetenv("OTEL_SDK_DISABLED");
   struct Unset { ~Unset() { unsetenv("OTEL_SDK_DISABLED"); } } unset_on_exit;
   Resource res = make_resource(which);
   std::string passed = canon(res);
-  Seen seen;
+  Seen seen, seen2;  // per processor / reader
+  size_t expect1 = 0, expect2 = 0;
+  const bool two = path == P_TWO || path == P_ADD_LATER;
   std::string dctx = vf::sfmt("OTEL_SDK_DISABLED=%s", dis ? dis : "<unset>");
+  std::string pctx = std::string(" [") + kPathName[path] + "]";
   c.stage(signal == 0 ? "trace" : signal == 1 ? "logs" : "metrics");
   if (signal == 0) {
     auto proc = sdktrace::SimpleSpanProcessorFactory::Create(std::unique_ptr<sdktrace::SpanExporter>(new SpanExp(&seen)));
+    auto proc2 = sdktrace::SimpleSpanProcessorFactory::Create(std::unique_ptr<sdktrace::SpanExporter>(new SpanExp(&seen2)));
     std::shared_ptr<sdktrace::TracerProvider> tp;
-    if (path == 0) tp.reset(new sdktrace::TracerProvider(std::move(proc), res));
-    else if (path == 1) tp = sdktrace::TracerProviderFactory::Create(std::move(proc), res);
+    if (path == P_CTOR || path == P_ADD_LATER) tp.reset(new sdktrace::TracerProvider(std::move(proc), res));
+    else if (path == P_FACTORY) tp = sdktrace::TracerProviderFactory::Create(std::move(proc), res);
+    else if (path == P_CTOR_DEFAULT) tp.reset(new sdktrace::TracerProvider(std::move(proc)));
+    else if (path == P_FACTORY_DEFAULT) tp = sdktrace::TracerProviderFactory::Create(std::move(proc));
     else {
       std::vector<std::unique_ptr<sdktrace::SpanProcessor>> ps;
       ps.push_back(std::move(proc));
-      tp = sdktrace::TracerProviderFactory::Create(sdktrace::TracerContextFactory::Create(std::move(ps), res));
+      if (path == P_TWO) { ps.push_back(std::move(proc2)); tp = sdktrace::TracerProviderFactory::Create(std::move(ps), res); }
+      else tp = sdktrace::TracerProviderFactory::Create(sdktrace::TracerContextFactory::Create(std::move(ps), res));
+    }
+    nostd::shared_ptr<ot::trace::Tracer> early;
+    if (path == P_ADD_LATER) {
+      early = tp->GetTracer("lib-early", "1.0");
+      early->StartSpan("before")->End();
+      ++expect1;
+      tp->AddProcessor(std::move(proc2));
     }
     for (int s = 0; s < scopes; ++s) {
       auto tracer = tp->GetTracer(s == 0 ? "lib-one" : s == 1 ? "lib-two" : "lib-three", "1.0");
       for (int i = 0; i < items; ++i) { tracer->StartSpan("op")->End(); c.step(); }
     }
-    verify(c, "span", seen, (size_t)(scopes * items), tp->GetResource(), passed);
+    expect1 += (size_t)(scopes * items);
+    if (two) expect2 += (size_t)(scopes * items);
+    if (early) { early->StartSpan("after")->End(); ++expect1; ++expect2; }  // a tracer handed out before AddProcessor reaches the new processor too
+    verify(c, "span", seen, expect1, tp->GetResource(), passed);
+    if (two) verify(c, "span", seen2, expect2, tp->GetResource(), passed);
     // global registration honours OTEL_SDK_DISABLED
     nostd::shared_ptr<ot::trace::TracerProvider> noop(new ot::trace::NoopTracerProvider());
     ot::trace::Provider::SetTracerProvider(noop);
@@ -174,19 +203,34 @@ void run(vf::Ctx &c) {
             dctx + vf::sfmt(": sdk::trace::Provider::SetTracerProvider installed=%d", (int)installed));
   } else if (signal == 1) {
     auto proc = sdklogs::SimpleLogRecordProcessorFactory::Create(std::unique_ptr<sdklogs::LogRecordExporter>(new LogExp(&seen)));
+    auto proc2 = sdklogs::SimpleLogRecordProcessorFactory::Create(std::unique_ptr<sdklogs::LogRecordExporter>(new LogExp(&seen2)));
     std::shared_ptr<sdklogs::LoggerProvider> lp;
-    if (path == 0) lp.reset(new sdklogs::LoggerProvider(std::move(proc), res));
-    else if (path == 1) lp = sdklogs::LoggerProviderFactory::Create(std::move(proc), res);
+    if (path == P_CTOR || path == P_ADD_LATER) lp.reset(new sdklogs::LoggerProvider(std::move(proc), res));
+    else if (path == P_FACTORY) lp = sdklogs::LoggerProviderFactory::Create(std::move(proc), res);
+    else if (path == P_CTOR_DEFAULT) lp.reset(new sdklogs::LoggerProvider(std::move(proc)));
+    else if (path == P_FACTORY_DEFAULT) lp = sdklogs::LoggerProviderFactory::Create(std::move(proc));
     else {
       std::vector<std::unique_ptr<sdklogs::LogRecordProcessor>> ps;
       ps.push_back(std::move(proc));
-      lp = sdklogs::LoggerProviderFactory::Create(sdklogs::LoggerContextFactory::Create(std::move(ps), res));
+      if (path == P_TWO) { ps.push_back(std::move(proc2)); lp = sdklogs::LoggerProviderFactory::Create(std::move(ps), res); }
+      else lp = sdklogs::LoggerProviderFactory::Create(sdklogs::LoggerContextFactory::Create(std::move(ps), res));
+    }
+    nostd::shared_ptr<ot::logs::Logger> early;
+    if (path == P_ADD_LATER) {
+      early = lp->GetLogger("logger-early", "lib-early", "1.0");
+      early->EmitLogRecord(ot::logs::Severity::kInfo, "before");
+      ++expect1;
+      lp->AddProcessor(std::move(proc2));
     }
     for (int s = 0; s < scopes; ++s) {
       auto logger = lp->GetLogger(s == 0 ? "logger-one" : s == 1 ? "logger-two" : "logger-three", s == 0 ? "lib-one" : s == 1 ? "lib-two" : "lib-three", "1.0");
       for (int i = 0; i < items; ++i) { logger->EmitLogRecord(ot::logs::Severity::kInfo, "message"); c.step(); }
     }
-    verify(c, "log", seen, (size_t)(scopes * items), lp->GetResource(), passed);
+    expect1 += (size_t)(scopes * items);
+    if (two) expect2 += (size_t)(scopes * items);
+    if (early) { early->EmitLogRecord(ot::logs::Severity::kInfo, "after"); ++expect1; ++expect2; }
+    verify(c, "log", seen, expect1, lp->GetResource(), passed);
+    if (two) verify(c, "log", seen2, expect2, lp->GetResource(), passed);
     nostd::shared_ptr<ot::logs::LoggerProvider> noop(new ot::logs::NoopLoggerProvider());
     ot::logs::Provider::SetLoggerProvider(noop);
     nostd::shared_ptr<ot::logs::LoggerProvider> api_lp(lp);
@@ -198,17 +242,21 @@ void run(vf::Ctx &c) {
   } else {
     std::shared_ptr<sdkmet::MeterProvider> mp;
     auto views = std::unique_ptr<sdkmet::ViewRegistry>(new sdkmet::ViewRegistry());
-    if (path == 0) mp.reset(new sdkmet::MeterProvider(std::move(views), res));
-    else if (path == 1) mp = sdkmet::MeterProviderFactory::Create(std::move(views), res);
+    if (path == P_CTOR || path == P_TWO || path == P_ADD_LATER) mp.reset(new sdkmet::MeterProvider(std::move(views), res));
+    else if (path == P_FACTORY) mp = sdkmet::MeterProviderFactory::Create(std::move(views), res);
+    else if (path == P_CTOR_DEFAULT) { if (c.flip("default-views-too")) mp.reset(new sdkmet::MeterProvider()); else mp.reset(new sdkmet::MeterProvider(std::move(views))); }
+    else if (path == P_FACTORY_DEFAULT) { if (c.flip("default-views-too")) mp = sdkmet::MeterProviderFactory::Create(); else mp = sdkmet::MeterProviderFactory::Create(std::move(views)); }
     else mp = sdkmet::MeterProviderFactory::Create(sdkmet::MeterContextFactory::Create(std::move(views), res));
-    std::shared_ptr<Reader> reader(new Reader());
+    std::shared_ptr<Reader> reader(new Reader()), reader2(new Reader());
     mp->AddMetricReader(reader);
+    if (path == P_TWO) mp->AddMetricReader(reader2);
     std::vector<nostd::unique_ptr<ot::metrics::Counter<uint64_t>>> counters;
     for (int s = 0; s < scopes; ++s) {
       auto meter = mp->GetMeter(s == 0 ? "lib-one" : s == 1 ? "lib-two" : "lib-three", "1.0");
       counters.push_back(meter->CreateUInt64Counter("requests"));
       counters.back()->Add(3);
     }
+    if (path == P_ADD_LATER) mp->AddMetricReader(reader2);  // after meters and instruments exist and recorded
     size_t scope_batches = 0;
     for (int i = 0; i < items; ++i) {  // one collection per "item"
       reader->Collect([&](sdkmet::ResourceMetrics &rm) {
@@ -217,10 +265,17 @@ void run(vf::Ctx &c) {
         scope_batches += rm.scope_metric_data_.size();
         return true;
       });
+      if (two)
+        reader2->Collect([&](sdkmet::ResourceMetrics &rm) {  // how much a late reader sees is not this property's business; which resource it sees is
+          seen2.resources.push_back(rm.resource_);
+          seen2.values.push_back(rm.resource_ ? canon(*rm.resource_) : std::string("<null>"));
+          return true;
+        });
       c.step();
     }
     c.check(scope_batches == (size_t)(scopes * items), "C18:harness:metrics", vf::sfmt("%zu scope batches collected, expected %d", scope_batches, scopes * items));
     verify(c, "metric", seen, (size_t)items, mp->GetResource(), passed);
+    if (two) verify(c, "metric", seen2, (size_t)items, mp->GetResource(), passed);
     nostd::shared_ptr<ot::metrics::MeterProvider> noop(new ot::metrics::NoopMeterProvider());
     ot::metrics::Provider::SetMeterProvider(noop);
     nostd::shared_ptr<ot::metrics::MeterProvider> api_mp(mp);
@@ -230,10 +285,10 @@ void run(vf::Ctx &c) {
     c.check(installed == !disabled, installed ? "C18:sdk-disabled:metrics:provider-installed-although-disabled" : "C18:sdk-disabled:metrics:provider-not-installed",
             dctx + vf::sfmt(": sdk::metrics::Provider::SetMeterProvider installed=%d", (int)installed));
   }
-  std::string st = vf::sfmt("%d|%d|%zu|%d|", signal, path, seen.resources.size(), (int)disabled) + passed;
+  std::string st = vf::sfmt("%d|%d|%zu+%zu|%d|", signal, path, seen.resources.size(), seen2.resources.size(), (int)disabled) + passed;
   c.state(st);
   c.outcome(st);
-  c.sample(vf::sfmt("signal %d path %d scopes %d items %d %s: %zu items all reference the provider's resource %s", signal, path, scopes, items, dctx.c_str(), seen.resources.size(), passed.c_str()));
+  c.sample(vf::sfmt("signal %d path %s scopes %d items %d %s: %zu+%zu items all reference the provider's resource %s", signal, kPathName[path], scopes, items, dctx.c_str(), seen.resources.size(), seen2.resources.size(), passed.c_str()));
 }
 
 void setup(vf::Options &o) {
